@@ -1,50 +1,65 @@
 ----------------------------- MODULE RxSlotProp -----------------------------
 (***************************************************************************)
 (* Layer P for C10, written from the property text.  One device under test *)
-(* and its peer.  Observable events (t in ms):                             *)
-(*  Inj(kind, e, init, rel, t)  the peer's datagram reached the device:    *)
-(*        kind "data" (secured, on exchange e, with initiator / reliable   *)
-(*        flags), "dataNoSession" (secured, for a session the device no    *)
-(*        longer has), "unsecStatus" (an unsecured status report that      *)
-(*        belongs to no session or exchange), "close" (CloseSession)       *)
-(*  AppRx(x, ex, tag, t)   handler x, on the exchange it accepted for id   *)
-(*        ex, received a message that was sent on exchange tag             *)
-(*  Tx(kind, e, secured, t) the device sent: "sack" stand-alone ack,       *)
-(*        "reply", "status" (status report), "other"                       *)
+(* and its peer(s).  Observable events (t in ms):                          *)
+(*  Inj(kind, s, e, init, rel, t)  the peer's datagram reached the device: *)
+(*        kind "data" (secured, on session s / exchange e, with initiator  *)
+(*        and reliable flags; the device has that session),                *)
+(*        "dataNoSession" (secured, for a session the device does not have *)
+(*        (any more)), "unsecStatus" (an unsecured status report that      *)
+(*        belongs to no session or exchange)                               *)
+(*  AppRx(x, s, ex, ts, tag, t)  handler x, on the exchange it accepted    *)
+(*        (session s, id ex), received a message that was sent on session  *)
+(*        ts, exchange tag                                                 *)
+(*  Tx(kind, s, e, secured, gone, t) the device sent: "sack" stand-alone   *)
+(*        ack (gone = sessions the device has removed by then),            *)
+(*        "reply", "status" (status report), "close" (CloseSession),       *)
+(*        "other"                                                          *)
 (*  ProbeSent(t) / ProbeAnswered(t)  a fresh request after the disturbance *)
-(*  End(left)              everything ran out; left = exchange slots still *)
-(*        occupied on the device's live sessions                           *)
+(*  End(left, gone)  everything ran out; left = exchange slots still       *)
+(*        occupied on the device's live sessions; gone = the sessions the  *)
+(*        device has removed on its own                                    *)
 (***************************************************************************)
 EXTENDS Integers, FiniteSets, Sequences
 CONSTANT TRecover       \* ms within which a fresh request must be answered after the disturbance
 
-Fresh == [opened |-> {},            \* exchange ids for which a secured initiator message arrived
-          relOwed |-> {},           \* exchange ids on which some message asked for an acknowledgement
-          noSess |-> 0,             \* secured datagrams for a missing session not answered yet
-          closed |-> FALSE,
+Fresh == [opened |-> {},            \* <<session, exchange id>> for which a secured initiator message arrived
+          relOwed |-> {},           \* <<session, exchange id>> on which some message asked for an acknowledgement
+          noSess |-> 0,             \* secured datagrams for a session the device never had
+          inj |-> [x \in 1..4 |-> 0], \* secured datagrams injected per session
+          statusSent |-> 0,         \* unsecured status reports the device sent
+          closeSeen |-> {},         \* sessions on which the device sent CloseSession
           probeAt |-> -1, probeOk |-> FALSE]
 
-InjOk(kind, e, init, rel, t, s) == TRUE
-AfterInj(kind, e, init, rel, t, s) ==
-  [s EXCEPT !.opened = IF kind = "data" /\ init /\ ~s.closed THEN @ \cup {e} ELSE @,
-            !.relOwed = IF kind = "data" /\ rel THEN @ \cup {e} ELSE @,
+InjOk(kind, ss, e, init, rel, t, s) == TRUE
+AfterInj(kind, ss, e, init, rel, t, s) ==
+  [s EXCEPT !.opened = IF kind = "data" /\ init THEN @ \cup {<<ss, e>>} ELSE @,
+            !.relOwed = IF kind = "data" /\ rel THEN @ \cup {<<ss, e>>} ELSE @,
             !.noSess = IF kind = "dataNoSession" THEN @ + 1 ELSE @,
-            !.closed = @ \/ kind = "close"]
+            !.inj = IF kind = "data" THEN [@ EXCEPT ![ss] = @ + 1] ELSE @]
 
-\* RightExchangeOnly + OpensOnlyIfAllowed
-AppRxOk(x, ex, tag, t, s) == tag = ex /\ tag \in s.opened
+\* RightExchangeOnly + OpensOnlyIfAllowed: the message was sent on exactly this session and exchange, and that exchange
+\* was opened by an initiator message
+AppRxOk(x, ss, ex, ts, tag, t, s) == ts = ss /\ tag = ex /\ <<ss, ex>> \in s.opened
 \* UnknownAnswersDropped: on an exchange no initiator message opened, the device sends nothing but the stand-alone
-\* ack a reliable message asked for; an unsecured status report that belongs to nothing is never answered;
-\* the (unsecured) SessionNotFound answer is only for a secured message that found no session
-TxOk(kind, e, secured, t, s) ==
-  /\ (secured /\ e \notin s.opened /\ e # 0) => (kind = "sack" /\ e \in s.relOwed)
-  /\ (~secured) => (kind = "status" /\ s.noSess > 0)
-AfterTx(kind, e, secured, t, s) == IF ~secured THEN [s EXCEPT !.noSess = @ - 1] ELSE s
+\* ack a reliable message asked for (or its own CloseSession); an unsecured status report that belongs to nothing is never
+\* answered; the (unsecured) SessionNotFound answer is only for a secured message that found no session
+RECURSIVE SumOver(_, _)
+SumOver(f, S) == IF S = {} THEN 0 ELSE LET x == CHOOSE y \in S : TRUE IN f[x] + SumOver(f, S \ {x})
+\* the (unsecured) SessionNotFound answer: at most one per secured datagram that found no session - one for a session the
+\* device never had, or one that was still waiting to be read when the device removed its session
+TxOk(kind, ss, e, secured, gone, t, s) ==
+  /\ (secured /\ <<ss, e>> \notin s.opened /\ e # 900) => ((kind = "sack" /\ <<ss, e>> \in s.relOwed) \/ kind = "close")
+  /\ (~secured) => (kind = "status" /\ s.statusSent < s.noSess + SumOver(s.inj, gone \cap (1..4)))
+AfterTx(kind, ss, e, secured, gone, t, s) ==
+  IF ~secured THEN [s EXCEPT !.statusSent = @ + 1]
+  ELSE IF kind = "close" THEN [s EXCEPT !.closeSeen = @ \cup {ss}] ELSE s
 ProbeSentOk(t, s) == TRUE
-AfterProbeSent(t, s) == [s EXCEPT !.probeAt = t, !.opened = @ \cup {900}]
+AfterProbeSent(t, s) == [s EXCEPT !.probeAt = t, !.opened = @ \cup {<<3, 900>>}]
 \* NoWedge: other traffic keeps flowing
 ProbeAnsweredOk(t, s) == s.probeAt # -1 /\ t - s.probeAt <= TRecover
 AfterProbeAnswered(t, s) == [s EXCEPT !.probeOk = TRUE]
-\* UnclaimedIsDiscarded: nothing is left behind, and the probe was answered
-EndOk(left, s) == left = 0 /\ (s.probeAt # -1 => s.probeOk)
+\* UnclaimedIsDiscarded: nothing is left behind, the probe was answered, and a session the device gave up because an
+\* exchange could not be closed cleanly was closed with a CloseSession on the wire ("a session close as required")
+EndOk(left, gone, s) == left = 0 /\ (s.probeAt # -1 => s.probeOk) /\ (\A g \in gone : g \in s.closeSeen)
 =============================================================================
